@@ -39,11 +39,11 @@ Record snk := mkSnk {
 Definition snk_new (accept : N -> N) (wfail : option N) (ffail : bool) : snk :=
   mkSnk [] 0 0 accept wfail 0 ffail.
 Definition vec_sink : snk := snk_new frag_all None false.
-Definition snk_bytes (k : snk) : list N := rev (k_out k).
+Definition snk_bytes (k : snk) : list N := lrev (k_out k).
 
 (* ---------- the effect signature ---------- *)
 Inductive ioE : Type -> Type :=
-| FillBuf : ioE (list N)           (* BufRead::fill_buf: the visible bytes *)
+| FillBuf : ioE (list N * N)       (* BufRead::fill_buf: (unconsumed data, number of its bytes that are visible) *)
 | Consume (n : N) : ioE unit       (* BufRead::consume *)
 | Write (bs : list N) : ioE N      (* Write::write on a non-empty slice: bytes accepted *)
 | Flush : ioE unit                 (* Write::flush *)
@@ -55,22 +55,28 @@ Record io := mkIo { i_src : src; i_snk : snk }.
 Definition limited (s : src) (n : N) : N :=
   match s_limit s with Some l => N.min l n | None => n end.
 
-Definition src_fill (s : src) : hres (list N) src :=
+(* min n (length l) without walking all of l when n is small *)
+Definition nmin_len {A} (n : N) (l : list A) : N :=
+  if n <? 1048576 then nlen (nfirstn n l) else N.min n (nlen l).
+
+Definition visible (r : list N * N) : list N := nfirstn (snd r) (fst r).
+
+Definition src_fill (s : src) : hres (list N * N) src :=
   match s_limit s with
-  | Some 0 => HOk [] s
+  | Some 0 => HOk (s_rest s, 0) s
   | _ =>
-    if 0 <? s_avail s then HOk (nfirstn (limited s (s_avail s)) (s_rest s)) s
+    if 0 <? s_avail s then HOk (s_rest s, limited s (s_avail s)) s
     else
       match s_rest s with
-      | [] => HOk [] s
+      | [] => HOk ([], 0) s
       | _ =>
         if (match s_fail s with Some k => k =? s_refills s | None => false end)
         then HErr EIo (mkSrc (s_rest s) (s_pos s) 0 (s_refills s + 1) (s_frag s) (s_fail s) (s_limit s))
         else
           let want := N.max 1 (s_frag s (s_refills s)) in
-          let a := N.min want (nlen (s_rest s)) in
+          let a := nmin_len want (s_rest s) in
           let s' := mkSrc (s_rest s) (s_pos s) a (s_refills s + 1) (s_frag s) (s_fail s) (s_limit s) in
-          HOk (nfirstn (limited s' a) (s_rest s)) s'
+          HOk (s_rest s, limited s' a) s'
       end
   end.
 
@@ -82,7 +88,7 @@ Definition snk_write (k : snk) (bs : list N) : hres N snk :=
   if (match k_wfail k with Some j => j =? k_calls k | None => false end)
   then HErr EIo (mkSnk (k_out k) (k_count k) (k_calls k + 1) (k_accept k) (k_wfail k) (k_flushes k) (k_ffail k))
   else
-    let n := N.min (nlen bs) (N.max 1 (k_accept k (k_calls k))) in
+    let n := nmin_len (N.max 1 (k_accept k (k_calls k))) bs in
     HOk n (mkSnk (rev_append (nfirstn n bs) (k_out k)) (k_count k + n) (k_calls k + 1)
                  (k_accept k) (k_wfail k) (k_flushes k) (k_ffail k)).
 
@@ -117,12 +123,12 @@ Notation icall := (@call ioE _).
 Definition read_buf (n : N) : iop (list N) :=
   if n =? 0 then Ret [] else
   vis <- icall FillBuf ;;
-  let got := nfirstn n vis in
+  let got := nfirstn (N.min n (snd vis)) (fst vis) in
   icall (Consume (nlen got)) ;;; Ret got.
 
 (* Read::read_exact (default implementation) *)
 Fixpoint read_exact_loop (fuel : nat) (n : N) (acc : list N) : iop (list N) :=
-  if n =? 0 then Ret (rev acc) else
+  if n =? 0 then Ret (lrev acc) else
   match fuel with
   | O => Panic (PFuel 1)
   | S fuel' =>
@@ -142,20 +148,20 @@ Definition read_u32_le : iop N := bs <- read_exact 4 ;; Ret (le_num bs).
 Definition read_u64_le : iop N := bs <- read_exact 8 ;; Ret (le_num bs).
 
 (* decode/util.rs *)
-Definition is_eof : iop bool := vis <- icall FillBuf ;; Ret (match vis with [] => true | _ => false end).
+Definition is_eof : iop bool := vis <- icall FillBuf ;; Ret (snd vis =? 0).
 Definition read_tag (tag : list N) : iop bool :=
   bs <- read_exact (nlen tag) ;; Ret (if list_eq_dec N.eq_dec bs tag then true else false).
 
 (* read up to [n] bytes, stopping early only at end of input (the net effect of
    BufReader<CrcDigestRead<Take<..>>> on the block header, see DESIGN §4) *)
 Fixpoint read_upto_loop (fuel : nat) (n : N) (acc : list N) : iop (list N) :=
-  if n =? 0 then Ret (rev acc) else
+  if n =? 0 then Ret (lrev acc) else
   match fuel with
   | O => Panic (PFuel 2)
   | S fuel' =>
       got <- read_buf n ;;
       match got with
-      | [] => Ret (rev acc)
+      | [] => Ret (lrev acc)
       | _ => read_upto_loop fuel' (n - nlen got) (rev_append got acc)
       end
   end.
